@@ -154,6 +154,10 @@ fn make_case(profile: &str, rng: &mut Rng) -> Case {
                     ("\"text\"", "\"text\""),
                     ("null", "nil"),
                     ("1.5", "1.5"),
+                    ("-4", "-4"),
+                    ("[-1, 2, -2.5, -40]", "{ -1, 2, -2.5, -40 }"),
+                    ("{ offset: -3 }", "{ offset = -3 }"),
+                    ("[1, null, 3]", "{ [1] = 1, [3] = 3 }"),
                 ]);
                 let name = *rng.pick(&["DEBUG_LEVEL", "DEBUG"]);
                 rules.push(format!("{{ rule: \"inject_global_value\", identifier: \"{}\", value: {} }}", name, json));
